@@ -32,6 +32,8 @@ pub struct Authorizer {
     pub(crate) public_key_to_block_id: HashMap<usize, Vec<usize>>,
     pub(crate) limits: AuthorizerLimits,
     pub(crate) execution_time: Option<Duration>,
+    /// run limit hit by a previous evaluation: budgets are cumulative, so later calls fail too
+    pub(crate) run_failure: Option<error::RunLimit>,
 }
 
 impl Authorizer {
@@ -39,9 +41,22 @@ impl Authorizer {
         match self.execution_time {
             Some(execution_time) => Ok(execution_time),
             None => {
+                // budgets are counted cumulatively across calls: a run that exhausted a budget
+                // is not restarted with a fresh one
+                if let Some(limit) = &self.run_failure {
+                    return Err(error::Token::RunLimit(limit.clone()));
+                }
                 let start = Instant::now();
-                self.world
-                    .run_with_limits(&self.symbols, self.limits.clone())?;
+                let mut limits = self.limits.clone();
+                limits.max_iterations = limits
+                    .max_iterations
+                    .checked_sub(self.world.iterations)
+                    .ok_or(error::Token::RunLimit(error::RunLimit::TooManyIterations))?;
+                let res = self.world.run_with_limits(&self.symbols, limits);
+                if let Err(error::Execution::RunLimit(limit)) = &res {
+                    self.run_failure = Some(limit.clone());
+                }
+                res?;
                 let execution_time = start.elapsed();
                 self.execution_time = Some(execution_time);
                 Ok(execution_time)
@@ -77,6 +92,7 @@ impl Authorizer {
             public_key_to_block_id: HashMap::new(),
             limits: AuthorizerLimits::default(),
             execution_time: None,
+            run_failure: None,
         }
     }
 
